@@ -298,6 +298,8 @@ var c20templates = []string{
 	/* 20 */ "local w = \x01 or true or true\nlocal x = \x01 and false and false\nlocal y = \x01 == 1\x1b5 == 2\x1b5\nlocal z = \x01 == \x01 == \x01\n",
 	// placeholders between duplicate parameters
 	/* 21 */ "function f(\x01, _, \x02) end\nlocal g = function(\x01, _, _, \x02) end\nlocal h = function(_, \x01, _) end\n",
+	// patterns nested in the surplus values of a declaration / assignment are analysed like any other
+	/* 22 */ "local p = 1, \x01 == \x02\nlocal q = f(), { \x01 = 1, \x02 = 2 }\nlocal r, s = 1, 2, \x03 or true, function(\x01, \x02) end\ng = 1, \x01 and false\n",
 }
 
 func VerifRun_C20() {
